@@ -213,6 +213,10 @@ pub fn install_panic_hook() {
 pub fn take_last_panic() -> Option<(String, String)> {
 	LAST_PANIC.with(|p| p.borrow_mut().take())
 }
+/// puts back what `take_last_panic` returned (a scenario looked at a panic and decided it is not its business)
+pub fn restore_last_panic(v: Option<(String, String)>) {
+	LAST_PANIC.with(|p| *p.borrow_mut() = v);
+}
 
 #[derive(Clone, Debug, Default, Serialize)]
 pub struct Teardown {
